@@ -11,6 +11,17 @@ COMMON_NOTE = ('Trusted: Lean 4.33 kernel with axioms propext/Classical.choice/Q
                'every invocation; harness generators, canonicalisation and monitors; ')
 
 CHECKS = {
+    'C14': dict(
+        text='Theorems: counter = xor of the halves of SHA-256 of the lower-cased, forward-slashed, NUL-terminated '
+             'UTF-16LE path (outside the recorded /backup alias guard); case- and separator-insensitivity for every '
+             'input; ID0 word re-packing; accepted movable.sed lengths; read/write coupling by the CTR-wrapper '
+             'theorems (C12).  Tied to SDRoot/SDFS/CryptoEngine by differential execution over keys, path spellings, '
+             'OS and in-memory filesystems, root and nested opendir views, write/seek/read histories, with the raw '
+             'backing bytes compared against an independently derived counter and ECB keystream.',
+        note=COMMON_NOTE + 'str.lower / SHA-256 / AES are parameters; pyfilesystem2 path functions and SubFS delegation '
+             'are covered by correspondence only; known finding sd.backup-alias.',
+        technique='Lean 4 proof + model/implementation correspondence',
+        design='§4 C14'),
     'C01': dict(
         text='Refinement theorems for CTRFileIO (with its cached-cipher coherence invariant) and TWLCTRFileIO (block '
              'reversal algebra) over any readable inner file, lifted to every seek/read/tell history, instantiated for '
